@@ -494,14 +494,9 @@ impl<'a, R: Clone> AsyncGlobalCache<'a, R> {
         key: &str,
         order: &mut MutexGuard<RawMutex, VecDeque<String>>,
     ) -> bool {
-        if self.cache.contains_key(key) {
-            // Key already exists, just update the order if LRU or ARC
-            if self.policy == EvictionPolicy::LRU || self.policy == EvictionPolicy::ARC {
-                order.retain(|k| k != key);
-                order.push_back(key.to_string());
-            }
-            // Don't insert again
-            return true;
+        if self.cache.remove(key).is_some() {
+            // Key already exists: drop the old entry so the new value replaces it
+            order.retain(|k| k != key);
         }
         false
     }
